@@ -133,7 +133,7 @@ Definition c17_eng (prev : obs) (o : op) (cur : obs) : bool :=
   | OOpen =>
       (* a replica that is open is not opened (attached) a second time *)
       if is_open prev then negb (is_ok (ores cur)) && unchanged prev cur else true
-  | OGetRevFail => negb (is_ok (ores cur)) && unchanged prev cur
+  | OGetRevFail | OOpenBadCounter | OSetRevFail _ => negb (is_ok (ores cur)) && unchanged prev cur
   | OOpenFail =>
       (* an open that fails leaves the replica as it was: closed stays closed, nothing is served *)
       negb (is_ok (ores cur)) && unchanged prev cur
